@@ -1380,9 +1380,10 @@ def build_plan(seed, tier):
             if fam == "scale":
                 continue
             for v in tab[fam]:
-                o = base_opts(r, iso3)
-                o[fam] = v
-                ops.append(_dispatch_op(iso3, o, r, {"family": fam, "value": v}, permute_p=0.3))
+                for _rep in range(2 if thorough else 1):
+                    o = base_opts(r, iso3)
+                    o[fam] = v
+                    ops.append(_dispatch_op(iso3, o, r, {"family": fam, "value": v}, permute_p=0.3))
     # every dictionary of the fixed core once more with an explicit permutation fault
     for iso3 in small_ctx:
         for _ in range(12 if thorough else 4):
@@ -1438,7 +1439,7 @@ def build_plan(seed, tier):
 
     # E/F/G. setters called directly: singles, every ordered pair within a family, pairs across families
     r = rng.sub("setters")
-    ctx_pairs = small_ctx if thorough else [seeded[0], "WOR"]
+    ctx_pairs = (small_ctx + [seeded[1], "SWT"]) if thorough else [seeded[0], "WOR"]
     for iso3 in ctx_pairs:
         sc = scale_of(iso3)
         valid = [s for s in SETTERS if sc in s["scales"]]
